@@ -618,7 +618,7 @@ func runImpl(ops []string, res *hlib.Result) (lines []string, fails []hlib.Failu
 			case "mworld":
 				w = &world{res: res, chainB: f[2], idx: map[signature.PublicKey]int{},
 					raws: map[string][]byte{}, origin: map[string]string{}, honest: map[string]bool{}, maxTx: atou(f[4])}
-				w.mw = &muxWorld{res: res, seed: unhx(f[1]), mtb: atou(f[3]), maxTx: atou(f[4]), minGasPx: atou(f[5])}
+				w.mw = &muxWorld{res: res, seed: unhx(f[1]), mtb: atou(f[3]), maxTx: atou(f[4]), minGasPx: atou(f[5]), disk: len(f) > 6 && f[6] == "1"}
 			case "init":
 				if w.mw == nil || w.mw.p != nil {
 					return
@@ -636,7 +636,7 @@ func runImpl(ops []string, res *hlib.Result) (lines []string, fails []hlib.Failu
 				out = w.mw.checkAndSimulate(w, f[1])
 			case "restart":
 				// a process restart between blocks: queued (uncommitted) transactions are lost
-				if w.mw == nil || w.mw.p == nil || w.mw.height == 0 {
+				if w.mw == nil || w.mw.p == nil || w.mw.height == 0 || !w.mw.disk {
 					return
 				}
 				w.mw.queue = nil
@@ -800,10 +800,47 @@ func runImpl(ops []string, res *hlib.Result) (lines []string, fails []hlib.Failu
 			break
 		}
 	}
+	if w != nil && panicked == "" {
+		w.batchCheck()
+	}
 	if w != nil {
 		fails = w.fails
 	}
 	return
+}
+
+// batchCheck: the exported batch entry point transaction.OpenRawTransactions (Ed25519 batch verification)
+// must give, for every raw transaction of the stream, the verdict of the single-signature path
+// (cbor.Unmarshal + SignedTransaction.Open) that DeliverTx uses.
+func (w *world) batchCheck() {
+	if len(w.raws) == 0 {
+		return
+	}
+	names := hlib.SortedKeys(w.raws)
+	raws := make([][]byte, len(names))
+	for i, n := range names {
+		raws[i] = w.raws[n]
+	}
+	func() {
+		defer func() {
+			if r := recover(); r != nil {
+				w.fails = append(w.fails, hlib.Failure{Kind: "panic", Sig: "panic-batch-open",
+					Detail: fmt.Sprintf("tx %s OpenRawTransactions panicked: %v", names[0], r)})
+			}
+		}()
+		_, txs, errs := transaction.OpenRawTransactions(raws)
+		for i, raw := range raws {
+			var sigTx transaction.SignedTransaction
+			var tx transaction.Transaction
+			single := cbor.Unmarshal(raw, &sigTx) == nil && sigTx.Open(&tx) == nil
+			batch := errs[i] == nil && txs[i] != nil
+			w.res.Count("batch-open:checked")
+			if single != batch {
+				w.fails = append(w.fails, hlib.Failure{Kind: "spec", Sig: "spec-batch-verify-differs",
+					Detail: fmt.Sprintf("tx %s (%s): single-signature path accepts=%v, OpenRawTransactions accepts=%v", names[i], w.origin[names[i]], single, batch)})
+			}
+		}
+	}()
 }
 
 func check(ops []string, res *hlib.Result) (detail string, nlines int, fails []hlib.Failure) {
@@ -876,12 +913,17 @@ func sliceFor(ops []string, detail string) []string {
 		}
 	}
 	var out []string
-	submitted := false
+	submitted, committed := false, false
 	for _, op := range ops {
 		w := strings.Fields(op)
 		switch w[0] {
-		case "world", "signer":
+		case "world", "mworld", "signer", "init":
 			out = append(out, op)
+		case "commit":
+			if submitted && !committed {
+				out = append(out, op)
+				committed = true
+			}
 		case "sign", "flip", "trunc", "raw":
 			if need[w[1]] {
 				out = append(out, op)
@@ -908,7 +950,7 @@ func genCase(r *hlib.Rng, nops int, flipAll bool, res *hlib.Result) []string {
 		chainA = d.ChainContext()
 	}
 	mtb := []uint64{0, 0, 5, 100}[r.Intn(4)]
-	maxTx := []uint64{0, 0, 32768, 230}[r.Intn(4)]
+	maxTx := []uint64{0, 0, 0, 32768, 32768, 240}[r.Intn(6)]
 	ops := []string{fmt.Sprintf("world %s %s %d %d %d", chainA, chainB, mtb, maxTx, r.Intn(3))}
 	ns := 1 + r.Intn(4)
 	nonce := make([]uint64, ns)
@@ -1021,7 +1063,7 @@ func genCase(r *hlib.Rng, nops int, flipAll bool, res *hlib.Result) []string {
 			if len(all) > 0 && r.Bool() {
 				ops = append(ops, fmt.Sprintf("trunc %s %s %d", n, all[r.Intn(len(all))], r.Intn(300)))
 			} else {
-				ops = append(ops, fmt.Sprintf("raw %s %s", n, hex.EncodeToString([]byte(randBytes(r, r.Intn(300), hexAlpha+"\xa2\x00\xff")))))
+				ops = append(ops, fmt.Sprintf("raw %s %s", n, hx([]byte(randBytes(r, r.Intn(300), hexAlpha+"\xa2\x00\xff")))))
 			}
 			ops = append(ops, fmt.Sprintf("submit %s 1", n))
 			res.Count("gen:garbage")
@@ -1068,7 +1110,7 @@ func main() {
 	}
 
 	res := hlib.NewResult("authdrv", *seed)
-	res.Rule = "stage 1: every registered signature context (runtime registry vs regenerated table) plus generated WithSuffix/PrepareSignerContext/NewContext cases; stage 2: streams of signed transactions from 1-4 memory signers (fresh, replayed, reordered, cross-context, cross-chain, wrong key, bit-flipped, truncated, garbage, direct AuthenticateAndPayFees in DeliverTx/CheckTx/simulation mode) with start nonces incl. 2^64-1; a stream is non-trivial when at least one transaction was authenticated and one was rejected; distinct by op list"
+	res.Rule = "stage 1: every registered signature context (runtime registry vs regenerated table) plus generated WithSuffix/PrepareSignerContext/NewContext cases; stage 2: streams of signed transactions from 1-4 memory signers (fresh, replayed, reordered, cross-context, cross-chain, wrong key, bit-flipped, truncated, garbage, direct AuthenticateAndPayFees in DeliverTx/CheckTx/simulation mode) with start nonces incl. 2^64-1; stage 3 (-mux): the same kinds of streams grouped into blocks and driven through the real ABCI mux on two replicas (proposer path and validator path), with CheckTx/EstimateGas in between and, in every 8th stream, real process restarts on an on-disk database; a stream is non-trivial when at least one transaction was authenticated and one was rejected; distinct by op list (streams derive from distinct seeds)"
 
 	report := func(d string, ops []string, cs uint64) {
 		kind := "divergence"
